@@ -383,6 +383,7 @@ class Program:
                         if isinstance(m_, (ast.FunctionDef, ast.AsyncFunctionDef)):
                             seen_names[m_.name] = seen_names.get(m_.name, 0) + 1
         _inline.POLYMORPHIC = {n_ for n_, k_ in seen_names.items() if k_ > 1}
+        _inline.SLOT_RENAMES = _inline.slot_renames(ss.files)
         for path in ss.python_files():
             name = path[:-3].replace(os.sep, '.')
             if name.endswith('.__init__'):
